@@ -83,7 +83,7 @@ add(P + "parse|unwrap|unwrap on Result::<char, Box<dyn std::error::Error>>::unwr
 add(P + "parse|explicit|panic_display", "the character at the index returned by find(['%', '\\\\']) is one of those two", {"type": "dominated_by_discr", "callee": "find", "label": 1})
 add(P + "parse_escape_sequence|unwrap|unwrap on Result::<&str, Box<dyn std::error::Error>>::unwrap", "advance_by(3) inside the Ok arm of peek(3) on the unchanged string", {"type": "dominated_by_discr", "callee": "and_then", "label": 0})
 add(P + "parse_format_specifier|unwrap|unwrap on Result::<char, Box<dyn std::error::Error>>::unwrap", "advance_one() right after front()? succeeded on the unchanged string", {"type": "operand_from", "callee": "advance_one"})
-add(P + "parse_format_width|unwrap|unwrap on Result::<char, Box<dyn std::error::Error>>::unwrap", "advance_one() inside `while front().map(is_ascii_digit).unwrap_or(false)`: a character is present", {"type": "dominated_by_true", "callee": "unwrap_or"})
+add(P + "parse_format_width|unwrap|unwrap on Result::<char, Box<dyn std::error::Error>>::unwrap", "advance_one() inside `while front().map(is_ascii_digit).unwrap_or(false)`: a character is present", {"type": "dominated_by_true", "callee": ["unwrap_or", "is_ok_and", "is_some_and"]})
 add(P + "parse_format_width|assert:overflow|overflow:Add", "digits counts characters of the format string: bounded by its length")
 add(P + "parse_format_width|index|<str as Index<Range<usize>>>::index", "start[0..digits]: `digits` ASCII digits (one byte each) were consumed from `start`")
 add(M + "printf::format_directive|unwrap|unwrap on Result::<&std::path::Path, std::path::StripPrefixError>::unwrap", "%P: the prefix is an ancestor of the same path", {"type": "operand_from", "callee": "strip_prefix"})
